@@ -512,7 +512,7 @@ func runC06(c *chk.Ctx) {
 	}
 	c.Cov["map_range_sites_rewritten"] = sites()
 	c.Cov["files_rewritten"] = nfiles
-	p := c06Params{Bound: chk.Pick(c, 1, 2), CorpusBound: 1, ModelBudget: chk.Pick(c, 2, 3), MaxExec: chk.Pick(c, 400, 20000), SchedMaxExec: chk.Pick(c, 60, 400)}
+	p := c06Params{Bound: chk.Pick(c, 1, 2), CorpusBound: 1, ModelBudget: chk.Pick(c, 2, 3), MaxExec: chk.Pick(c, 400, 20000), SchedMaxExec: chk.Pick(c, 60, 100)}
 	pool := *c.Pool
 	pool.Exe = exe
 	r := pool.Run("c06", p)
